@@ -19,7 +19,8 @@ func init() {
 // session: handles name the nodes the harness has obtained; same protocol as lean/Ajson/Model/Session.lean
 
 type Session struct {
-	handles []*ajson.Node
+	handles     []*ajson.Node
+	softHandles bool // a missing handle ends the history (probe pass) instead of the process
 }
 
 func (s *Session) numbering() (order []*ajson.Node, num map[*ajson.Node]int) {
@@ -187,12 +188,19 @@ func boolStr(b bool) string {
 // ---------------------------------------------------------------------------------------------
 // executing one request against the real library
 
+// badHandle: a recorded history names a handle that does not exist when the history is executed again, i.e. the library
+// answered one of the earlier requests differently the second time
+type badHandle string
+
 func (s *Session) node(x string) *ajson.Node {
 	if x == "-" {
 		return nil
 	}
 	k, err := strconv.Atoi(x)
 	if err != nil || k < 0 || k >= len(s.handles) {
+		if s.softHandles {
+			panic(badHandle(x))
+		}
 		fatal("bad handle %q", x)
 	}
 	return s.handles[k]
@@ -827,8 +835,7 @@ func streamHeap(o *Out, r *Rng, tier string) {
 		nHist, length = 6000, 24
 	}
 	o.meta.Rule = fmt.Sprintf("%d random histories of %d operations over every mutator, constructor, Clone and the read accessors; receivers and arguments drawn from aliasing classes (fresh, attached elsewhere, detached, descendant, ancestor/self, own child, nil receiver), cache-filling reads interleaved; after every operation the private state of every node reachable from a held handle is dumped (identities canonicalised) and compared with the model. A history is counted as distinct and non-trivial when its sequence of (operation kind, outcome class) pairs has not been seen and contains at least one successful mutation.", nHist, length)
-	for i := 0; i < nHist; i++ {
-		hr := r.Fork(uint64(i))
+	oneHistory := func(hr *Rng, build func(g *HistGen)) {
 		s := &Session{}
 		var sig strings.Builder
 		mutated := false
@@ -856,10 +863,7 @@ func streamHeap(o *Out, r *Rng, tier string) {
 		}
 		g := &HistGen{r: hr, s: s, out: emit}
 		g.do("reset")
-		g.do("parse", hexOrDash([]byte(hr.Pick(heapDocs))))
-		for k := 0; k < length; k++ {
-			g.Step()
-		}
+		build(g)
 		if mutated {
 			key := sig.String()
 			if !o.seen[key] {
@@ -870,7 +874,87 @@ func streamHeap(o *Out, r *Rng, tier string) {
 		// second execution of the same history with the property probes after every step
 		probeHistory(o, g.ops)
 	}
+	for i := 0; i < nHist; i++ {
+		hr := r.Fork(uint64(i))
+		oneHistory(hr, func(g *HistGen) {
+			g.do("parse", hexOrDash([]byte(hr.Pick(heapDocs))))
+			for k := 0; k < length; k++ {
+				g.Step()
+			}
+		})
+	}
+	// directed clone histories (C14): every source shape x cache state x side edited x kind of edit, then every read of
+	// both sides. The probes (non-interference of untouched trees, clone freshness) and the model comparison do the judging.
+	cr := r.Fork(4242)
+	nClone := 0
+	pres := []string{"", "object", "unpack"}
+	if tier == "thorough" {
+		pres = []string{"", "object", "array", "unpack", "marshal", "info"}
+	}
+	for _, src := range cloneSources {
+		for _, pre := range pres {
+			for side := 0; side < 2; side++ {
+				for _, edit := range cloneEdits {
+					nClone++
+					oneHistory(cr.Fork(uint64(nClone)), func(g *HistGen) {
+						for _, f := range src {
+							g.do(f...)
+						}
+						h := strconv.Itoa(len(g.s.handles) - 1) // the source is the last node built
+						if pre != "" {
+							g.do("read", h, pre)
+						}
+						g.do("clone", h)
+						c := strconv.Itoa(len(g.s.handles) - 1)
+						target, other := h, c
+						if side == 1 {
+							target, other = c, h
+						}
+						edit(g, target)
+						for _, what := range []string{"object", "array", "unpack", "marshal", "info"} {
+							g.do("read", other, what)
+							g.do("read", target, what)
+						}
+						// and an edit through whatever the other side now hands out
+						edit(g, other)
+						g.do("read", target, "unpack")
+						g.do("read", other, "unpack")
+					})
+				}
+			}
+		}
+	}
+	o.meta.Stats["directed.clone-histories"] = nClone
 	streamComparePairs(o, r.Fork(777), tier)
+}
+
+var cloneSources = [][][]string{
+	{{"obj", "-", "e"}}, {{"arr", "-", "e"}}, {{"obj", "-", "nil"}}, {{"arr", "-", "nil"}},
+	{{"parse", hexOrDash([]byte(`{}`))}}, {{"parse", hexOrDash([]byte(`[]`))}},
+	{{"parse", hexOrDash([]byte(`{"a":[1,2],"b":{"c":true}}`))}}, {{"parse", hexOrDash([]byte(`[[1],{"a":2},3]`))}},
+	{{"null", hexOrDash([]byte("a"))}, {"obj", "-", "e"}, {"obj", "-", hexOrDash([]byte("a")) + "=0," + hexOrDash([]byte("b")) + "=1"}},
+	{{"null", "-"}, {"arr", "-", "e"}, {"arr", "-", "0,1"}},
+	{{"obj", "-", "e"}, {"arr", "-", "0"}},
+	{{"parse", hexOrDash([]byte(`{"a":{}}`))}, {"obj", "-", "e"}, {"appobj", "0", hexOrDash([]byte("n")), "1"}, {"getkey", "0", hexOrDash([]byte("n"))}},
+}
+
+var cloneEdits = []func(g *HistGen, h string){
+	func(g *HistGen, h string) { g.do("appobj", h, hexOrDash([]byte("a")), g.freshNum()) },
+	func(g *HistGen, h string) { g.do("apparr", h, g.freshNum()) },
+	func(g *HistGen, h string) { g.do("setobj", h, hexOrDash([]byte("z"))+"="+g.freshNum()) },
+	func(g *HistGen, h string) { g.do("setarr", h, g.freshNum()) },
+	func(g *HistGen, h string) { g.do("delkey", h, hexOrDash([]byte("a"))); g.do("delidx", h, "0") },
+	func(g *HistGen, h string) {
+		g.do("getkey", h, hexOrDash([]byte("a")))
+		g.do("getidx", h, "0")
+		g.do("setstr", strconv.Itoa(len(g.s.handles)-1), hexOrDash([]byte("edited")))
+	},
+}
+
+func (g *HistGen) freshNum() string {
+	g.fmtFloat(0x4059000000000000)
+	g.do("num", "-", hex64(0x4059000000000000))
+	return strconv.Itoa(len(g.s.handles) - 1)
 }
 
 // variantOf returns a JSON text that is value-equal to `base` under another spelling (whitespace, key order, number
